@@ -335,7 +335,13 @@ func runC09(c *ctx, r *Report) error {
 			r.sample(map[string]interface{}{"pool": p, "job0": strings.Join(pool[0].lines, "\n"), "diags_alone": fmt.Sprint(alone["job0"])})
 		}
 	}
-	return nil
+	// workflow-level tie of the model the C09Visit theorems are about (job_resets, jobs_independent,
+	// job_depends_on_needed_only, steps_scope …)
+	nV := 300
+	if !c.quick {
+		nV = 6000
+	}
+	return visitTie(c, r, nV, nil)
 }
 
 func min(a, b int) int {
